@@ -226,3 +226,90 @@ Proof.
     repeat (destruct Hq as [Hq | Hq]; try contradiction); subst;
     destruct r as [|a [|b [|c r]]]; try congruence; discriminate.
 Qed.
+
+(* ---- the printed summaries (ObserverList.serializeSummaries) ----------------------- *)
+(* Model: Model/Summaries.v; display keys, widths, the keys of the total and of
+   the percentage from Generated/ObserverFacts.v (tr/facts_c10.py pins the rest
+   of the function's shape). *)
+From CL Require Import Model.Summaries Proofs.SummariesProofs.
+
+(* With at least one project observer the text never raises and consists, for
+   the locales of the list's own summary in ascending order (each once), of the
+   locale line, the rows and the percent line of the LAST column.  Without any
+   project observer it is empty when nothing was counted and IndexError
+   otherwise. *)
+Theorem C10_summaries_text : forall st,
+  (l_obs st <> [] ->
+     serialize_summaries st =
+       Ok (flat_map (block_lines st) (sort_locs (map fst (o_summary (l_own st)))))) /\
+  (l_obs st = [] ->
+     serialize_summaries st =
+       match o_summary (l_own st) with [] => Ok [] | _ :: _ => Raise IndexError end) /\
+  Sorted.Sorted N.le (sort_locs (map fst (o_summary (l_own st)))) /\
+  Permutation.Permutation (map fst (o_summary (l_own st)))
+                          (sort_locs (map fst (o_summary (l_own st)))).
+Proof.
+  intros st. split; [exact (serialize_ok st)|]. split; [exact (serialize_no_observers st)|].
+  split; [apply sort_locs_sorted|apply sort_locs_perm].
+Qed.
+
+(* The columns of a locale are the project observers in order, followed by the
+   list's own summary when there are two or more projects; the number behind
+   each cell is the count of C10_summary / C10_summary_list. *)
+Theorem C10_summaries_columns : forall st loc k,
+  map (Summaries.cget k) (columns st loc) =
+    map (fun cs => count_of (o_summary (snd cs)) loc k) (l_obs st)
+    ++ (if Nat.ltb 1 (length (l_obs st)) then [count_of (o_summary (l_own st)) loc k] else []).
+Proof. exact columns_counts. Qed.
+
+(* Exactly the display keys with a non-zero count in some column get a row, in
+   the order of the display keys; nothing else is printed between the locale
+   line and the percent line. *)
+Theorem C10_summaries_rows : forall cols,
+  rows cols = map (row_of cols) (filter (fun k => existsb (nonzero k) cols) display_keys).
+Proof. exact rows_spec. Qed.
+
+(* A cell reads back as its number (blanks as 0) whatever its width; when every
+   number of the row fits its cell, the i-th cell is found at its fixed
+   position. *)
+Theorem C10_summaries_cell : forall n, read_cell (cell n) = Some n.
+Proof. exact read_cell_cell. Qed.
+
+Theorem C10_summaries_row_reads_back : forall k cols i c,
+  In k display_keys -> Forall (fits k) cols -> nth_error cols i = Some c ->
+  read_cell (nth_cell (row_of cols k) i) = Some (Summaries.cget k c).
+Proof.
+  intros k cols i c Hk. apply nth_cell_row. apply display_key_fits. exact Hk.
+Qed.
+
+(* The percent line: floor(100 * changed / total) of the last column, between 0
+   and 100; 0 when the total is 0. *)
+Theorem C10_summaries_rate : forall c,
+  rate_of c <= 100 /\
+  (total_of c = 0 -> rate_of c = 0) /\
+  (total_of c <> 0 ->
+     rate_of c * total_of c <= Summaries.cget rate_key c * 100 < (rate_of c + 1) * total_of c).
+Proof.
+  intros c. split; [apply rate_le_100|]. split; [apply rate_zero_total|apply rate_spec].
+Qed.
+
+(* two projects: the rows shown, their order, the blanks for zeros, the percent
+   of each column; the premise [fits] of C10_summaries_row_reads_back holds of
+   both columns (it is about digit counts: a number of more than cell_width
+   digits shifts the rest of its row, the code does not cut) *)
+Example C10_summaries_example :
+  let c1 := [(rate_key, 3); ([107; 101; 121; 115]%N, 4321)] in
+  let c2 := [(rate_key, 1); ([117; 110; 99; 104; 97; 110; 103; 101; 100]%N, 3)] in
+  rows [c1; c2] =
+    [[99; 104; 97; 110; 103; 101; 100; 32; 32; 32; 32; 32; 32; 32; 32; 32; 32; 32; 51;
+      32; 32; 32; 32; 32; 32; 49]%N;
+     [117; 110; 99; 104; 97; 110; 103; 101; 100; 32; 32; 32; 32; 32; 32; 32; 32; 32; 32;
+      32; 32; 32; 32; 32; 32; 51]%N;
+     [107; 101; 121; 115; 32; 32; 32; 32; 32; 32; 32; 32; 32; 32; 32; 52; 51; 50; 49; 32; 32; 32;
+      32; 32; 32; 32]%N] /\
+  rate_of c1 = 100 /\ rate_of c2 = 25 /\
+  forallb (fun k => forallb (fun c => Nat.leb (length (cell_text (Summaries.cget k c))) cell_width)
+                            [c1; c2]) display_keys = true /\
+  read_cell (nth_cell (row_of [c1; c2] [107; 101; 121; 115]%N) 0) = Some 4321 /\
+  read_cell (nth_cell (row_of [c1; c2] [107; 101; 121; 115]%N) 1) = Some 0.
+Proof. vm_compute. repeat split; reflexivity. Qed.
